@@ -9,6 +9,14 @@ pub fn hex(b: &[u8]) -> String {
     }
     s
 }
+/// short printable form of a key for messages
+pub fn kx(b: &[u8]) -> String {
+    if b.len() > 16 {
+        format!("{}..({} bytes)", hex(&b[..8]), b.len())
+    } else {
+        hex(b)
+    }
+}
 pub fn hexd(b: &[u8]) -> String {
     if b.is_empty() {
         "-".to_string()
